@@ -1,4 +1,164 @@
-(* C05 — property theorems (statements only; proofs live in Proofs/). *)
-From Coq Require Import List ZArith.
-From PF Require Import Lib.ListX Lib.PySlice Model.Ragged.
+(* C05 — ragged containers: every selection equals the same selection on nested
+   lists.  Statements only; every proof is `exact <lemma of Proofs/...>`. *)
+From Coq Require Import List ZArith Arith Bool.
+From PF Require Import Lib.ListX Lib.PySlice Model.Ragged Model.RaggedSpec.
+From PF Require Import Proofs.MntProofs Proofs.MetProofs.
 Import ListNotations.
+
+Section C05.
+  Variable A : Type.
+
+  (* _batched_arange as written (cumsum / repeat_interleave / ptr[batch]) equals its docstring *)
+  Theorem batched_arange_docstring : forall count : list nat,
+    batched_arange count =
+      (concat (map (fun p => repeat (fst p) (snd p)) (combine (seq 0 (length count)) count)),
+       concat (map (fun c => seq 0 c) count)).
+  Proof. exact batched_arange_spec. Qed.
+
+  (* MultiNestedTensor: any index expression on either axis.  The result is the
+     canonical container of the nested-list selection; where the list selection
+     is an error (out-of-range integer, non-positive step, bad mask) the
+     container raises. *)
+  Theorem mnt_select_refines : forall (c : nat) (m : cellmat A) (ix : index) (dim : nat),
+    rect c m -> dim < 2 ->
+    select A _ (mnt_kernels A) (mnt_of_cells c m) ix dim =
+    match py_positions (if dim =? 0 then length m else c) ix with
+    | Some pos => Some (mnt_of_cells (if dim =? 0 then c else length pos) (pick dim pos m))
+    | None => None
+    end.
+  Proof. exact (mnt_select_refines_proof A). Qed.
+
+  (* the selected matrix is again rectangular, so the result is well-formed and
+     usable in any further operation *)
+  Theorem pick_rect : forall (c : nat) (m : cellmat A) (ix : index) (dim : nat) (pos : list nat),
+    rect c m -> dim < 2 ->
+    py_positions (if dim =? 0 then length m else c) ix = Some pos ->
+    rect (if dim =? 0 then c else length pos) (pick dim pos m).
+  Proof. exact (pick_rect_proof A). Qed.
+
+  Theorem mnt_get_value_spec : forall (c : nat) (m : cellmat A) (i j : nat),
+    rect c m -> i < length m -> j < c ->
+    mnt_get_value A (mnt_of_cells c m) i j = Some (nth j (nth i m []) []).
+  Proof. exact (mnt_get_value_proof A). Qed.
+
+  (* t[i, j] with two integers: negative indices wrap, out of range raises *)
+  Theorem mnt_getitem_ints : forall (c : nat) (m : cellmat A) (i j : Z),
+    rect c m ->
+    getitem_pair A _ (mnt_kernels A) (mnt_of_cells c m) (IInt i) (IInt j) =
+    match norm_index (length m) i, norm_index c j with
+    | Some i', Some j' => Some (ItemValue A _ (nth j' (nth i' m []) []))
+    | _, _ => None
+    end.
+  Proof. exact (mnt_getitem_ints_proof A). Qed.
+
+  (* arbitrary programs (chains) of selections, including through empties *)
+  Fixpoint spec_prog (c : nat) (m : cellmat A) (p : list (nat * index)) : option (nat * cellmat A) :=
+    match p with
+    | [] => Some (c, m)
+    | (d, ix) :: rest =>
+        match py_positions (if d =? 0 then length m else c) ix with
+        | Some pos => spec_prog (if d =? 0 then c else length pos) (pick d pos m) rest
+        | None => None
+        end
+    end.
+  Fixpoint mnt_prog (t : mnt A) (p : list (nat * index)) : option (mnt A) :=
+    match p with
+    | [] => Some t
+    | (d, ix) :: rest => match select A _ (mnt_kernels A) t ix d with Some t' => mnt_prog t' rest | None => None end
+    end.
+
+  Theorem mnt_program_refines : forall (p : list (nat * index)) (c : nat) (m : cellmat A),
+    rect c m -> Forall (fun s => fst s < 2) p ->
+    mnt_prog (mnt_of_cells c m) p = option_map (fun cm => mnt_of_cells (fst cm) (snd cm)) (spec_prog c m p)
+    /\ (forall c' m', spec_prog c m p = Some (c', m') -> rect c' m').
+  Proof.
+    (* by induction on p from mnt_select_refines and pick_rect *)
+    induction p as [|[d ix] rest IH]; intros c m Hr Hp.
+    - simpl. split; [reflexivity|]. intros c' m' H. injection H as <- <-. exact Hr.
+    - inversion Hp as [|x l Hd Hrest]; subst. simpl in Hd.
+      cbn [mnt_prog spec_prog]. rewrite (mnt_select_refines c m ix d Hr Hd).
+      destruct (py_positions (if d =? 0 then length m else c) ix) as [pos|] eqn:E.
+      + apply IH; [|exact Hrest]. exact (pick_rect c m ix d pos Hr Hd E).
+      + split; [reflexivity|discriminate].
+  Qed.
+
+  (* well-formedness is intrinsic: exactly the validate() facts plus monotone offsets *)
+  Theorem mnt_wf_intrinsic : forall t : mnt A, mnt_wf t <-> mnt_valid t.
+  Proof. exact (mnt_wf_intrinsic_proof A). Qed.
+
+  (* MultiEmbeddingTensor *)
+  Theorem met_select_refines : forall (ws : list nat) (m : cellmat A) (ix : index) (dim : nat),
+    rect_w ws m -> dim < 2 ->
+    select A _ (met_kernels A) (met_of_cells ws m) ix dim =
+    match py_positions (if dim =? 0 then length m else length ws) ix with
+    | Some pos => Some (met_of_cells (pick_ws dim pos ws) (pick dim pos m))
+    | None => None
+    end.
+  Proof. exact (met_select_refines_proof A). Qed.
+
+  Theorem pick_rect_w : forall (ws : list nat) (m : cellmat A) (ix : index) (dim : nat) (pos : list nat),
+    rect_w ws m -> dim < 2 ->
+    py_positions (if dim =? 0 then length m else length ws) ix = Some pos ->
+    rect_w (pick_ws dim pos ws) (pick dim pos m).
+  Proof. exact (pick_rect_w_proof A). Qed.
+
+  Theorem met_get_value_spec : forall (ws : list nat) (m : cellmat A) (i j : nat),
+    rect_w ws m -> i < length m -> j < length ws ->
+    met_get_value A (met_of_cells ws m) i j = Some (nth j (nth i m []) []).
+  Proof. exact (met_get_value_proof A). Qed.
+End C05.
+
+Print Assumptions batched_arange_docstring.
+Print Assumptions mnt_select_refines.
+Print Assumptions pick_rect.
+Print Assumptions mnt_get_value_spec.
+Print Assumptions mnt_getitem_ints.
+Print Assumptions mnt_program_refines.
+Print Assumptions mnt_wf_intrinsic.
+Print Assumptions met_select_refines.
+Print Assumptions pick_rect_w.
+Print Assumptions met_get_value_spec.
+
+(* ---------------------------------------------------------------------- *)
+(* Non-vacuity: the hypotheses are met by concrete non-trivial states, and the
+   theorems say something definite about them. *)
+Definition ex_m : cellmat nat := [[[1;2];[3]]; [[4];[]]; [[];[5;6]]; [[7];[8;9]]].
+
+Example ex_rect : rect 2 ex_m.
+Proof. repeat constructor. Qed.
+
+(* a container that is itself a slice of a larger one (rows 1..2) is well-formed *)
+Example ex_wf_of_slice : exists t,
+  select nat _ (mnt_kernels nat) (mnt_of_cells 2 ex_m) (ISlice (Some 1%Z) (Some 3%Z) None) 0 = Some t
+  /\ mnt_wf t /\ mnt_valid t.
+Proof.
+  eexists. split; [vm_compute; reflexivity|].
+  assert (W : mnt_wf (mnt_of_cells 2 [[[4];[]]; [[];[5;6]]])).
+  { exists [[[4];[]]; [[];[5;6]]]. split; [repeat constructor | reflexivity]. }
+  split; [exact W | apply (proj1 (mnt_wf_intrinsic nat _)); exact W].
+Qed.
+
+(* a 2-step program: overshooting slice on rows, then a column list, through the model *)
+Example ex_program :
+  mnt_prog nat (mnt_of_cells 2 ex_m) [(0, ISlice (Some 1%Z) (Some 9%Z) None); (1, IList [1%Z; 0%Z])]
+  = Some (mnt_of_cells 2 [[[];[4]]; [[5;6];[]]; [[8;9];[7]]]).
+Proof. vm_compute. reflexivity. Qed.
+
+(* passing through an empty result and continuing *)
+Example ex_through_empty :
+  mnt_prog nat (mnt_of_cells 2 ex_m) [(0, ISlice (Some 2%Z) (Some 2%Z) None); (1, ISlice None (Some 1%Z) None);
+                                      (0, IMask [])]
+  = Some (mnt_of_cells 1 []).
+Proof. vm_compute. reflexivity. Qed.
+
+(* errors: out-of-range integer, non-positive step *)
+Example ex_errors :
+  select nat _ (mnt_kernels nat) (mnt_of_cells 2 ex_m) (IInt 4%Z) 0 = None /\
+  select nat _ (mnt_kernels nat) (mnt_of_cells 2 ex_m) (ISlice None None (Some 0%Z)) 1 = None /\
+  select nat _ (met_kernels nat) (met_of_cells [2;1] [[[1;2];[3]];[[4;5];[6]]]) (ITensor [(-3)%Z]) 0 = None.
+Proof. vm_compute. repeat split. Qed.
+
+Example ex_met_cols :
+  select nat _ (met_kernels nat) (met_of_cells [2;1;0] [[[1;2];[3];[]];[[4;5];[6];[]]]) (IList [2%Z; 0%Z; 0%Z]) 1
+  = Some (met_of_cells [0;2;2] [[[];[1;2];[1;2]];[[];[4;5];[4;5]]]).
+Proof. vm_compute. reflexivity. Qed.
